@@ -59,6 +59,56 @@ def run_program(sink, lib_seed, prog_seed, nsteps, prefix_seed=None, prefix_step
     return observe(list(sink.lines))
 
 
+def run_behaviour(sink, lib_seed, beh, prefix_seed=None, prefix_steps=0):
+    """A TLC-generated behaviour executed with the REAL sampler (nothing forced, nothing compared):
+    only what it observes is recorded."""
+    from photon_weave.photon_weave import Config
+
+    from harness import drivers, tracer, world
+
+    if prefix_seed is not None:
+        tracer.set_enabled(False)
+        Config().set_seed(prefix_seed)
+        pre = drivers.Program(random.Random(prefix_seed))
+        for _ in range(prefix_steps):
+            pre.step()
+        tracer.set_enabled(True)
+    tracer.new_trace(lib_seed)
+    sink.lines.clear()
+    Config().set_seed(lib_seed)
+    Config().set_contraction(True)
+    init = beh[0]
+    u = init["u"]
+    w = world.World(u["dim"], u["kind"], u["env"], init["lv"])
+    for k, rec in enumerate(beh[1:], start=1):
+        w.step_no = k
+        try:
+            w.call(rec)
+        except Exception:  # noqa: BLE001  recorded by the tracer
+            pass
+    return observe(list(sink.lines))
+
+
+def behaviours_main(seed, src, out):
+    from harness import tracer, world
+
+    behs = json.load(open(src))
+    sink = ListSink()
+    S = world.Sampler()
+    S.force = False
+    S.install()
+    tracer.install(sink)
+    rng = random.Random(seed)
+    with open(out, "w") as f:
+        for k, beh in enumerate(behs):
+            lib_seed = rng.randrange(1, 10 ** 6)
+            a = run_behaviour(sink, lib_seed, beh, prefix_seed=rng.randrange(10 ** 6), prefix_steps=rng.randrange(2, 8))
+            b = run_behaviour(sink, lib_seed, beh, prefix_seed=rng.randrange(10 ** 6), prefix_steps=rng.randrange(0, 4))
+            c = run_behaviour(sink, lib_seed, beh)
+            f.write(json.dumps({"pair": seed * 100000 + k, "seed": lib_seed, "a": a, "b": b, "c": c, "fresh": False}) + "\n")
+    return 0
+
+
 def child(lib_seed, prog_seed, nsteps):
     from harness import tracer, world
 
@@ -72,6 +122,9 @@ def child(lib_seed, prog_seed, nsteps):
 
 
 def main():
+    if "--behaviours" in sys.argv:
+        i = sys.argv.index("--behaviours")
+        return behaviours_main(int(sys.argv[1]), sys.argv[i + 1], sys.argv[i + 2])
     if "--child" in sys.argv:
         i = sys.argv.index("--child")
         return child(int(sys.argv[i + 1]), int(sys.argv[i + 2]), int(sys.argv[i + 3]))
